@@ -222,3 +222,18 @@ Definition supplement_txn (R : N) (s : store) (p : probe)
 Definition supplement_block (R : N) (s : store) : option (list (N * (N * N))) :=
   if R <=? hgt s + 1 then Some []
   else mapM (λ i, (λ v, (i, v)) <$> fce s !! i) (exp_get s (hgt s + 1)).
+
+(** ** The element accumulator: which nodes getElementProof reads (db.go:531-548)
+    The Tree bucket maps (row, col) to the hash of the leaves [col*2^row, (col+1)*2^row).
+    A proof for [leaf] in an accumulator of [n] leaves has [bits.Len64(leaf xor n) - 1]
+    entries, entry [i] being the sibling (i, (leaf >> i) xor 1); [None] is the panic
+    "leafIndex exceeds accumulator size".  A node is *live* at size [n] when its leaves lie
+    wholly inside the accumulator; revertElements never deletes nodes, so only live nodes are
+    guaranteed current (db.go:760-765). *)
+Definition proof_len (leaf n : N) : N := N.size (N.lxor leaf n) - 1.
+Definition sibling (leaf i : N) : N := N.lxor (N.shiftr leaf i) 1.
+Definition nrange (k : N) : list N := map N.of_nat (seq 0 (N.to_nat k)).
+Definition get_proof_reads (leaf n : N) : option (list (N * N)) :=
+  if n <=? leaf then None
+  else Some (map (λ i, (i, sibling leaf i)) (nrange (proof_len leaf n))).
+Definition live (n r c : N) : bool := (c + 1) * 2 ^ r <=? n.
